@@ -50,7 +50,7 @@ def run(ctx):
         plan = [(2, None, 700), (3, "sim", 300)]
         flavors = ["oid/oid", "path/oidf", "oidf/path"]
     else:
-        plan = [(1, None, None), (2, None, None), (3, None, 5000), (4, "sim", 2000)]
+        plan = [(1, None, None), (2, None, 6000), (3, None, 1500), (4, "sim", 1000)]
         flavors = ["oid/oid", "path/oidf", "oidf/path", "path/path"]
     exhaustive = True
     for nops, mode, limit in plan:
